@@ -18,13 +18,11 @@ const ipv6Full = `(` + ipv6Address + `(` + ipv4Address + `))` +
 	`|(` + ipv6Address + `)` + `|(` + ipv6Compressed + `)`
 const optionalPort = `(:\d{1,5})?`
 const addressPattern = `((` + ipv4Address + `)|(\[(` + ipv6Full + `)\])|(` + ipv6Full + `))` + optionalPort
-const fullAddrPattern = `(^|\s|[^\w:])` + addressPattern + `(\s|(:\s)|[^\w:]|$)`
+const fullAddrPattern = `(?:^|\s|[^\w:])(` + addressPattern + `)(?:\s|(?::\s)|[^\w:]|$)`
 
 var scrubberPatterns = []*regexp.Regexp{
 	regexp.MustCompile(fullAddrPattern),
 }
-
-var addressRegexp = regexp.MustCompile(addressPattern)
 
 // An io.Writer that can be used as the output for a logger that first
 // sanitizes logs and then writes to the provided io.Writer
@@ -42,10 +40,21 @@ func Scrub(b []byte) []byte {
 	scrubbedBytes := b
 	for _, pattern := range scrubberPatterns {
 		// this is a workaround since go does not yet support look ahead or look
-		// behind for regular expressions.
-		scrubbedBytes = pattern.ReplaceAllFunc(scrubbedBytes, func(b []byte) []byte {
-			return addressRegexp.ReplaceAll(b, []byte("[scrubbed]"))
-		})
+		// behind for regular expressions: replace only the address (the first
+		// submatch) and resume the search right after it, so that the delimiter
+		// that ends one address can also start the next one.
+		var newBytes []byte
+		index := 0
+		for {
+			loc := pattern.FindSubmatchIndex(scrubbedBytes[index:])
+			if loc == nil {
+				break
+			}
+			newBytes = append(newBytes, scrubbedBytes[index:index+loc[2]]...)
+			newBytes = append(newBytes, []byte("[scrubbed]")...)
+			index = index + loc[3]
+		}
+		scrubbedBytes = append(newBytes, scrubbedBytes[index:]...)
 	}
 	return scrubbedBytes
 }
